@@ -52,12 +52,13 @@ def seed_for(base, prop_id, i):
 _prop = None
 
 
-def _init_worker(prop_module, san):
+def _init_worker(prop_module, san, instr=False):
     global _prop
     import importlib
     sys.path.insert(0, os.path.join(VERIF, "sim"))
     _prop = importlib.import_module(prop_module).PROPERTY
     _prop.san = san
+    _prop.instr = instr
     import faulthandler
     faulthandler.enable()
 
@@ -119,6 +120,7 @@ def main(prop_module, argv):
     ap.add_argument("--budget", type=float)
     ap.add_argument("--workers", type=int, default=int(os.environ.get("VERIF_WORKERS", os.cpu_count() or 4)))
     ap.add_argument("--san", action="store_true")
+    ap.add_argument("--instr", action="store_true", help="C07: run the concurrent section on the instrumented build (pre-emption at function-call granularity)")
     ap.add_argument("--no-evidence", action="store_true")
     a = ap.parse_args(argv)
     tier = "thorough" if a.tier.startswith("thor") else "quick"
@@ -130,6 +132,7 @@ def main(prop_module, argv):
     import importlib
     prop = importlib.import_module(prop_module).PROPERTY
     prop.san = a.san
+    prop.instr = a.instr
     t_start = time.time()
     try:
         runner.ensure_built(a.san)
@@ -158,7 +161,7 @@ def main(prop_module, argv):
     ctx = multiprocessing.get_context("fork")
     i = 0
     chunk = max(a.workers * 4, 32)
-    ex = ProcessPoolExecutor(a.workers, mp_context=ctx, initializer=_init_worker, initargs=(prop_module, a.san))
+    ex = ProcessPoolExecutor(a.workers, mp_context=ctx, initializer=_init_worker, initargs=(prop_module, a.san, a.instr))
     try:
         while True:
             if runs is not None and i >= runs:
@@ -260,6 +263,22 @@ def main(prop_module, argv):
                 print("KNOWN-FINDING: property=%s %s (%s)" % (prop.id, k["id"], k["what"]))
                 known_hits[k["id"]] = 1
 
+    # thorough tier of the thread-simulating properties: a second pass on the instrumented build (pre-emption points
+    # at function-call granularity inside the engine); its verdict counts, its summary goes into the evidence
+    instr_pass = None
+    if tier == "thorough" and getattr(prop, "instr_in_thorough", False) and not a.instr and not a.san and rc == 0 and not a.replay:
+        import subprocess
+        cmd = [sys.executable, os.path.join(VERIF, "sim", "check_main.py"), prop.id, "--tier", "thorough", "--instr", "--no-evidence",
+               "--budget", str(max(60.0, budget * 0.5)), "--workers", str(a.workers)]
+        p2 = subprocess.run(cmd, capture_output=True, text=True)
+        for line in p2.stdout.splitlines():
+            if line.startswith(("VIOLATION", "  clause", "  detail", "  schedule", "HARNESS_ERROR")):
+                print(line)
+        summary = [l for l in p2.stdout.splitlines() if " tier=" in l]
+        instr_pass = dict(rc=p2.returncode, summary=summary[-1] if summary else "(no summary)")
+        if p2.returncode != 0:
+            rc = p2.returncode
+
     if not a.no_evidence:
         cov = dict(evaluations=n_runs, distinct_nontrivial=len(shapes) if shapes else n_nontrivial, rule=prop.rule, samples=samples or ["(none)"],
                    runs_per_hour=int(n_runs / max(wall, 1e-6) * 3600), seeds=dict(base=base_seed, count=i), totals=totals,
@@ -267,6 +286,8 @@ def main(prop_module, argv):
                    known_findings_met=known_hits, components=COMPONENTS, workers=a.workers)
         if getattr(prop, "exhaustive_note", None):
             cov["exhaustive_note"] = prop.exhaustive_note
+        if instr_pass:
+            cov["instrumented_build_pass"] = instr_pass
         ev = dict(property_id=prop.id, tier=tier, seed=base_seed, level=prop.level, coverage=cov,
                   assumptions=getattr(prop, "assumptions", []), wall_s=round(wall, 2), violations=len(violations))
         os.makedirs(os.path.join(VERIF, "evidence"), exist_ok=True)
